@@ -37,6 +37,9 @@ def run(chk):
     # C14.d constant tables are never read out of bounds
     subscript.run_units(chk)
     nodeadd.run(chk)
+    from lib import opkind
+    opkind.run(chk, A["emit"], floor=150)
+    opkind.run(chk, xemit, floor=30)
 
     return chk.finish(
         level="other",
